@@ -79,6 +79,18 @@ func RunOne(spec *PropSpec, master uint64, run int, tier string, keepLog bool, s
 	tr := &Trace{Property: spec.ID, Engine: spec.Engine, Seed: seed, Run: run, Tier: tier}
 	tr.Cfg = spec.Config(spec.ID, rng, tier)
 	res, _ := ExecTrace(spec, tr, rng, keepLog, scratch)
+	if res.Harness != "" && spec.Engine == "storesim+evm" {
+		// go-ethereum's transaction pool promotes transactions on goroutines of its own: under load a transaction
+		// is, very rarely (about one run in 30000), sealed one block later than the harness expects, which the harness
+		// reports as its own trouble ("unexpected ... log"). Harness trouble is never a verdict: the recorded operations
+		// are executed again, and what a clean execution shows is what counts.
+		for attempt := 0; attempt < 3 && res.Harness != ""; attempt++ {
+			if r2, _ := ExecTrace(spec, tr.Clone(), nil, keepLog, scratch); r2.Harness == "" {
+				r2.Stats["evm_harness_trouble_gone_on_reexecution"]++
+				res = r2
+			}
+		}
+	}
 	if res.Violation != nil {
 		tr.Violation = res.Violation
 		same := func(c *Trace) *Violation {
